@@ -188,6 +188,20 @@ class Graph:
     def reachable_edges(self) -> List[int]:
         return [i for i, e in enumerate(self.edges) if e["_s"] in self.parent]
 
+    def selfloop_pairs(self) -> List[Tuple[int, int]]:
+        """(loop edge, following edge) for every edge that leaves the abstract state unchanged.
+
+        BFS-tree paths never contain such an edge, so an implementation whose *hidden* state is
+        disturbed by an abstractly idle action (a resend, a duplicate, a lookup) would go unnoticed;
+        replaying path_to(s) + loop + next for every outgoing edge of s closes that hole."""
+        pairs = []
+        for i in self.reachable_edges():
+            e = self.edges[i]
+            if e["_s"] == e["_d"]:
+                for j in self.out.get(e["_s"], ()):
+                    pairs.append((i, j))
+        return pairs
+
 
 def parallel_map(fn: Callable, chunks: List[Any], procs: int = NCPU) -> List[Any]:
     """fork-based map; fn must be a module-level function. Runs inline for 1 proc."""
@@ -233,6 +247,7 @@ def validate_traces(module: str, cfg_text: str, traces: List[List[dict]], scratc
     results: List[TlcResult] = []
     accepted: List[int] = []
     rejected: List[Tuple[int, int, dict]] = []
+    aborted: List[int] = []
 
     def run_shard(idx: List[int], shard_no: int):
         idx = list(idx)
@@ -259,6 +274,21 @@ def validate_traces(module: str, cfg_text: str, traces: List[List[dict]], scratc
             res = run_tlc(src, cfgp, workers=1, scratch=d, env={"TRACE_FILE": tf}, timeout=timeout)
             results.append(res)
             m = re.search(r"TRACE_REACHED (\d+) OF (\d+)", res.out)
+            if m is None and res.assert_failed:
+                # An environment Assert of the trace spec fired.  If named clauses of the same trace failed
+                # before it, the implementation's wrong answers led the driver astray: the trace is reported
+                # through those clauses and abandoned.  Without a prior failure it is a driver defect.
+                tids = re.findall(r"/\\ tid = (-?\d+)", res.out)
+                tid = int(tids[-1]) if tids else None
+                prior = [x for x in res.printed() if isinstance(x, dict) and "fail" in x and x.get("tid") == tid]
+                if tid is None or tid not in idx or not prior:
+                    raise MachineryError("trace spec %s: environment assertion failed without a prior failed clause:\n%s" % (module, res.out[-2500:]))
+                aborted.append(tid)
+                shutil.rmtree(d, ignore_errors=True)
+                pos = idx.index(tid)
+                accepted.extend(idx[:pos])
+                idx = idx[pos + 1:]
+                continue
             if m is None:
                 raise MachineryError("trace spec %s did not report progress:\n%s" % (module, res.out[-3000:]))
             reached, total = int(m.group(1)), int(m.group(2))
